@@ -314,7 +314,14 @@ class GetDict(MultiDict):
         self._written = list(self._items)
 
     def __setitem__(self, key, value):
-        MultiDict.__setitem__(self, key, value)
+        # not MultiDict.__setitem__: its ``del self[key]`` would write the
+        # deletion back on its own, and a value refused afterwards would
+        # leave the old pairs lost although the assignment raised
+        try:
+            MultiDict.__delitem__(self, key)
+        except KeyError:
+            pass
+        self._items.append((key, value))
         self.on_change()
 
     def add(self, key, value):
